@@ -22,7 +22,7 @@ fn real(bij: &Bij, r: &str) -> String {
     }
 }
 fn is_ref(s: &str) -> bool {
-    s == "bogus" || (s.len() == 2 && s.starts_with('h') && s[1..].chars().all(|c| c.is_ascii_digit()))
+    s == "bogus" || (s.len() >= 2 && s.starts_with('h') && s[1..].chars().all(|c| c.is_ascii_digit()))
 }
 pub fn script_of(op: &Value, bij: &Bij) -> String {
     let cmd = op["cmd"].as_str().unwrap();
@@ -288,4 +288,19 @@ pub fn record(args: &[String]) {
     s.set("histories", json!(nhist));
     s.set("events", json!(events));
     s.finish();
+}
+
+/// debugging aid: replay the operations of one recorded history and print every output and the last error
+pub fn debug(args: &[String]) {
+    let ops = ndjson(&args[0]);
+    let mut ctx = sdk_context();
+    let mut bij = Bij::new();
+    for op in ops {
+        let next = bij.len() as u64 + 1;
+        let script = script_of(&op, &bij);
+        match step(ctx.clone(), &mut bij, &op, next) {
+            Ok((c, o)) => { ctx = c; let e = run(ctx.clone(), "vh_e = get_last_error\n").ok().and_then(|c| c.variables.get("vh_e").cloned()); println!("{} -> {:?} (last error {:?})", script.trim(), o, e); }
+            Err(e) => println!("{} -> ERR {}", script.trim(), e),
+        }
+    }
 }
